@@ -61,6 +61,97 @@ def derives_from_source(expr):
 def check(chk, repo, tier):
     chk.trusted_base += ["CPython ast"]
     cache_discipline(chk, repo, "C13", full=True)
+    absent_versus_falsy(chk, repo)
+
+
+def boolean_context(node):
+    """Is the value of `node` only tested for truth?  Returns a description
+    of the testing construct or None."""
+    par = getattr(node, "_parent", None)
+    if isinstance(par, ast.UnaryOp) and isinstance(par.op, ast.Not):
+        return "not ..."
+    if isinstance(par, (ast.If, ast.While, ast.IfExp)) and par.test is node:
+        return type(par).__name__.lower() + " test"
+    if isinstance(par, ast.BoolOp):
+        if isinstance(par.op, ast.And) or par.values[-1] is not node:
+            return "and/or operand"
+        return boolean_context(par)
+    if isinstance(par, ast.Call) and dotted(par.func) == "bool":
+        return "bool(...)"
+    if isinstance(par, ast.comprehension) and node in par.ifs:
+        return "comprehension filter"
+    return None
+
+
+def slice_bound_aliases(fn):
+    """local names bound to <x>.start / <x>.stop / <x>.step (plain or tuple
+    assignment, `or default` kept apart)"""
+    out = {}
+    for n in ast.walk(fn):
+        if not isinstance(n, ast.Assign) or len(n.targets) != 1:
+            continue
+        pairs = []
+        t, v = n.targets[0], n.value
+        if isinstance(t, ast.Tuple) and isinstance(v, ast.Tuple) \
+                and len(t.elts) == len(v.elts):
+            pairs = list(zip(t.elts, v.elts))
+        else:
+            pairs = [(t, v)]
+        for tt, vv in pairs:
+            if isinstance(tt, ast.Name) and isinstance(vv, ast.Attribute) \
+                    and vv.attr in ("start", "stop", "step"):
+                out[tt.id] = vv.attr
+    return out
+
+
+def absent_versus_falsy(chk, repo):
+    """Items and slice bounds are arbitrary values, 0 included: 'there is no
+    item' and 'there is no bound' must be told from StopIteration / None,
+    never from the truth value."""
+    mod = repo.mod("LazyList")
+    cls = mod.cls("LazyList")
+    units = [(mod, f"LazyList.{m.name}", m) for m in cls.body
+             if isinstance(m, ast.FunctionDef)]
+    hp = repo.mod("helpers")
+    if "deep_copy" not in hp.functions:
+        raise AnalysisError("anchor vanished: helpers.deep_copy")
+    units.append((hp, "helpers.deep_copy", hp.functions["deep_copy"]))
+    n_next = n_bound = 0
+    for m, uname, fn in units:
+        for n in ast.walk(fn):
+            if isinstance(n, ast.Call) and dotted(n.func) == "next" \
+                    and len(n.args) == 2:
+                n_next += 1
+                how = boolean_context(n)
+                chk.ob("C13.exhaustion-not-by-truthiness",
+                       f"{uname}:{ast.unparse(n)[:40]}", how is None,
+                       f"`{ast.unparse(n)}` is only tested for truth ({how}): "
+                       "an item that is 0, '' or [] is taken for the end of "
+                       "the list", m.rel, n.lineno,
+                       witness="a lazy list whose next item is 0")
+        al = slice_bound_aliases(fn)
+        for n in ast.walk(fn):
+            which = None
+            if isinstance(n, ast.Name) and isinstance(n.ctx, ast.Load) \
+                    and al.get(n.id) == "stop":
+                which = n.id
+            elif isinstance(n, ast.Attribute) and n.attr == "stop" \
+                    and isinstance(n.ctx, ast.Load):
+                which = ast.unparse(n)
+            if which is None:
+                continue
+            n_bound += 1
+            how = boolean_context(n)
+            chk.ob("C13.slice-stop-zero-is-a-bound",
+                   f"{uname}:{which} ({how})" if how else f"{uname}:{which}",
+                   how is None,
+                   f"the slice end `{which}` is only tested for truth "
+                   f"({how}): l[a:0] (empty) is treated like l[a:] (the rest "
+                   "of the list)", m.rel, n.lineno,
+                   witness="LazyList(iter([1,2,3]))[1:0]")
+    chk.unit("next(x, default) calls examined", n_next)
+    chk.unit("uses of a slice end examined", n_bound)
+    chk.floor("uses of a slice end examined", n_bound, 1)
 
 
 def cache_discipline(chk, repo, P, full=False):
@@ -377,8 +468,9 @@ def cache_discipline(chk, repo, P, full=False):
         "raw_object that does not iterate self); raw_object is set once; the "
         "cache list does not escape; __next__ caches exactly what it returns; "
         "__iter__ resumes after the cached prefix; observers pull only "
-        "through next(self). Does not decide the values observers return "
-        "(wrap-around, slices, equality).")
+        "through next(self); the end of the list / an absent slice end is "
+        "never inferred from a truth value. Does not decide the values "
+        "observers return (wrap-around, slices, equality).")
     chk.assumptions += ["LazyList instances are only built by the class "
                         "constructor"]
 
